@@ -388,7 +388,7 @@ pub fn run(ctx: &Ctx) -> Report {
     rep.need("eat matched across >=2 buffers", 50);
     rep.need("pop_except_from stopped at a buffer join", 50);
     run_regressions(ctx, &mut rep, &|v| replay(&ctx.strict_clone(), v));
-    let cases = ctx.tier.pick(3_000_000, 200_000_000);
+    let cases = ctx.tier.pick(20_000_000, 200_000_000);
     let out = run_random(ctx.seed, cases, 600, decode, oracle);
     rep.absorb(out);
     rep
